@@ -8,12 +8,12 @@ from common import check_cache, fail, make_sd, net_info, run_step, states_json
 BOUND = ("networks with <= 6(7) variables (exhaustive 1-variable, sampled 2-variable, seeded random) and hand-built networks with <= 9 variables; seeded histories of "
          "<= 6 (quick) / <= 10 (thorough) calls interleaving candidate/seed/set queries on arbitrary (mostly unexpanded) nodes with every way of giving a node "
          "successors (single-node expansion, bfs, dfs, minimal-space with/without skip_ignored, attractor-seed, target, block with/without source shortcuts, "
-         "scc as first call, skip_to_minimal, skip_remaining) and with reclaim_node_data / pickle round trips; after EVERY call the cached candidates, seeds and "
+         "scc and build at any position, skip_to_minimal, skip_remaining) and with reclaim_node_data / pickle round trips; after EVERY call the cached candidates, seeds and "
          "sets of EVERY node are compared with the brute-force attractors owned by the node under its current successors")
 RULE = "non-trivial = at some moment a node that had cached attractor data while unexpanded was given successors"
 CASE_TIMEOUT = 60.0
 
-OPS = families.PLAIN_OPS + families.QUERY_OPS * 3 + families.SKIP_OPS * 2 + families.HOUSE_OPS + ["block"]
+OPS = families.PLAIN_OPS + families.QUERY_OPS * 3 + families.SKIP_OPS * 2 + families.HOUSE_OPS + ["block", "scc", "build"]
 D4_SHAPES = [
     [["seeds", 0, False], ["skip_remaining"]],
     [["seeds", 0, False], ["skip", 0]],
